@@ -298,6 +298,13 @@ impl<const LEVELS: usize> Env<LEVELS> {
     pub fn get_transactions(&self) -> &Vec<Event<OrderId>> {
         &self.transactions
     }
+
+    /// Verification hook (cargo feature `verif`, off by default):
+    /// read-only view of the instructions queued for the next step
+    #[cfg(feature = "verif")]
+    pub fn verif_queued(&self) -> &Vec<Event<OrderId>> {
+        &self.transactions
+    }
 }
 
 #[cfg(test)]
